@@ -22,6 +22,9 @@ pub struct PipeOpts {
     pub thunk_ops: bool,
     /// middleware dispatching follow-ups through its dispatcher (forces a queue that cannot fill)
     pub mw_dispatch: bool,
+    /// a direct subscriber dispatching a follow-up into its own store from inside on_notify, i.e.
+    /// from the reducer context through the inherent `dispatch` (forces a queue that cannot fill)
+    pub cb_dispatch: bool,
     /// GetState ops on client threads
     pub readers: bool,
     /// subscribers / middleware read the state inside their callbacks
@@ -52,6 +55,7 @@ impl PipeOpts {
             panics: false,
             thunk_ops: false,
             mw_dispatch: false,
+            cb_dispatch: false,
             readers: false,
             callback_reads: false,
             pols: &POLS_MOSTLY_BLOCK,
@@ -85,13 +89,14 @@ pub fn gen_pipeline(raw: &Raw, o: &PipeOpts) -> Scenario {
     let mut policy = o.pols[pick(knob(raw, 1), o.pols.len())];
     let ctor = CTORS[pick(knob(raw, 2), 3)].clone();
     let use_mw_dispatch = o.mw_dispatch && knob(raw, 8) % 3 == 0;
-    if use_mw_dispatch && policy == Pol::Block {
+    let use_cb_dispatch = o.cb_dispatch && knob(raw, 8) % 3 == 1;
+    if (use_mw_dispatch || use_cb_dispatch) && policy == Pol::Block {
         cap = 512; // a reducer-context dispatch into a full blocking queue is a self-deadlock (C13 excludes it)
     }
     // half of the `Simple` cases take the shape the convenience constructors can express
     // (`StoreImpl::new`, `new_with_reducer`, `new_with_name`: defaults for everything else), so
     // that those entry points are really used; reducers / middlewares may still arrive at run time
-    let simple_shape = matches!(ctor, Ctor::Simple) && !use_mw_dispatch && o.pols.contains(&Pol::Block) && o.reducers.0 <= 1 && o.mws.0 == 0 && knob(raw, 2) % 2 == 0;
+    let simple_shape = matches!(ctor, Ctor::Simple) && !use_mw_dispatch && !use_cb_dispatch && o.pols.contains(&Pol::Block) && o.reducers.0 <= 1 && o.mws.0 == 0 && knob(raw, 2) % 2 == 0;
     let mut name = o.name;
     if simple_shape {
         cap = 16;
@@ -118,7 +123,7 @@ pub fn gen_pipeline(raw: &Raw, o: &PipeOpts) -> Scenario {
     }
     // a store without reducers and middlewares has no callback except its subscribers': keep one
     // observer, or nothing the pipeline does with an action would be visible in the log
-    let nsub = range(knob(raw, 5), o.prelude_subs).max(if nred == 0 && nmw == 0 { 1 } else { 0 });
+    let nsub = range(knob(raw, 5), o.prelude_subs).max(if (nred == 0 && nmw == 0) || use_cb_dispatch { 1 } else { 0 });
     let mut all_subs: Vec<SubId> = vec![];
     for i in 0..nsub {
         let sub = b.sub(SubKind::Direct);
@@ -219,6 +224,19 @@ pub fn gen_pipeline(raw: &Raw, o: &PipeOpts) -> Scenario {
         let victim = all_subs[pick(knob(raw, 13), all_subs.len())];
         let trigger = acts[pick(knob(raw, 14), acts.len())];
         b.sub_mut(host).on_notify_ops.push((trigger, vec![Op::Unsubscribe { store: s, sub: victim }]));
+    }
+    // re-entrant use: up to three notifications make a prelude subscriber dispatch a follow-up
+    // into the same store from inside on_notify (it must be queued, not run inside the callback)
+    if use_cb_dispatch && !acts.is_empty() {
+        let host = b.s.prelude.iter().find_map(|o| match o { Op::Subscribe { sub, .. } => Some(*sub), _ => None }).unwrap();
+        for j in 0..1 + (knob(raw, 12) % 3) as usize {
+            let trigger = acts[pick(knob(raw, 13).rotate_left(4 * j as u32), acts.len())];
+            if b.sub_mut(host).on_notify_ops.iter().any(|(t, _)| *t == trigger) {
+                continue;
+            }
+            let f = b.action(s, j as u8);
+            b.sub_mut(host).on_notify_ops.push((trigger, vec![Op::Dispatch { act: f, via: VIAS[(knob(raw, 14) as usize + j) % 3].clone() }]));
+        }
     }
     b.s.epilogue.push(Op::Stop { store: s, via_trait: false });
     b.s.epilogue.push(Op::GetState { store: s });
